@@ -418,16 +418,18 @@ Proof. intros. unfold b_delete. rewrite filter_In, negb_true_iff, mem_false. tau
 
 (* one iteration of the loop regenerated from the source: the author's expressions see every name of the current
    sample with the current sample's value, the student's input sees the same minus var_blacklist *)
-Lemma iteration_scopes : forall sample bl i b, fresh_inv sample b ->
+Definition source_loop (evs : list loop_event) : Prop := evs = loop_events \/ evs = sum_loop_events.
+
+Lemma iteration_scopes : forall evs sample bl i b, source_loop evs -> fresh_inv sample b ->
   exists ba bs b',
-    run_events loop_events sample bl i b (mkSeen [] []) = (b', mkSeen [ba] [bs])
+    run_events evs sample bl i b (mkSeen [] []) = (b', mkSeen [ba] [bs])
     /\ (forall x j, In (x, j) ba <-> j = i /\ In x sample)
     /\ (forall x j, In (x, j) bs <-> j = i /\ In x sample /\ ~ In x bl)
     /\ fresh_inv sample b'.
 Proof.
-  intros sample bl i b Hinv. unfold loop_events. simpl.
+  intros evs sample bl i b Hevs Hinv.
   set (b1 := b_update b sample i). set (b2 := b_delete b1 bl).
-  exists b1, b2, (b_update b2 sample i). split; [reflexivity|].
+  exists b1, b2, (b_update b2 sample i). split; [destruct Hevs; subst; reflexivity|].
   assert (H1 : forall x j, In (x, j) b1 <-> j = i /\ In x sample) by (intros; apply b_update_In; exact Hinv).
   assert (H2 : forall x j, In (x, j) b2 <-> j = i /\ In x sample /\ ~ In x bl).
   { intros x j. unfold b2. rewrite b_delete_In, H1. simpl. tauto. }
@@ -437,17 +439,17 @@ Proof.
 Qed.
 
 (* any number of samples: iteration k (counting from i) sees exactly sample i+k *)
-Lemma loop_scopes : forall sample bl n i b, fresh_inv sample b ->
-  let l := run_loop loop_events sample bl n i b in
+Lemma loop_scopes : forall evs, source_loop evs -> forall sample bl n i b, fresh_inv sample b ->
+  let l := run_loop evs sample bl n i b in
   length l = n /\
   forall k s, nth_error l k = Some s ->
     exists ba bs, seen_author s = [ba] /\ seen_student s = [bs]
       /\ (forall x j, In (x, j) ba <-> j = (i + k)%nat /\ In x sample)
       /\ (forall x j, In (x, j) bs <-> j = (i + k)%nat /\ In x sample /\ ~ In x bl).
 Proof.
-  intros sample bl n. induction n as [|n IH]; intros i b Hinv.
+  intros evs Hevs sample bl n. induction n as [|n IH]; intros i b Hinv.
   - simpl. split; [reflexivity|]. intros k s H. destruct k; discriminate.
-  - destruct (iteration_scopes sample bl i b Hinv) as [ba [bs [b' [Hrun [Ha [Hs Hinv']]]]]].
+  - destruct (iteration_scopes evs sample bl i b Hevs Hinv) as [ba [bs [b' [Hrun [Ha [Hs Hinv']]]]]].
     cbn [run_loop]. rewrite Hrun. cbv zeta.
     destruct (IH (S i) b' Hinv') as [Hlen Hnth]. split; [simpl; rewrite Hlen; reflexivity|].
     intros k s Hk. destruct k as [|k]; simpl in Hk.
